@@ -488,6 +488,7 @@ pub fn property() -> Property {
                 signature: laws_signature,
                 essential: &["three_updates_two_gaps", "reset_or_rewind", "stall_queried", "rate_changed", "finished"],
                 workers: w,
+                decode: None,
             }),
             Box::new(Gen::<SteadyCase> {
                 name: "steady",
@@ -498,6 +499,7 @@ pub fn property() -> Property {
                 signature: no_signature,
                 essential: &["irregular_cadence", "stall_queried", "long_gap"],
                 workers: w,
+                decode: None,
             }),
             Box::new(Gen::<TwinCase> {
                 name: "indifference",
@@ -508,6 +510,7 @@ pub fn property() -> Property {
                 signature: no_signature,
                 essential: &["different_prehistories_then_progress", "rewind", "reset_all", "reset_eta"],
                 workers: w,
+                decode: None,
             }),
         ],
     }
